@@ -2,5 +2,5 @@
 # runs every check registered in MANIFEST.json (quick tier) and prints one line each; optional seed as $1
 cd /verif
 for p in $(python3 -c "import json;print(' '.join(c['property_id'] for c in json.load(open('MANIFEST.json'))['checks']))"); do
-  VERIF_SEED=${1:-0} ./check $p | tail -1
+  VERIF_SEED=${1:-0} ./check $p | grep -E "^VIOLATION|^property" 
 done
